@@ -130,9 +130,13 @@ def run(ctx):
               m.loc(), instance=name)
   ctx.expect_at_least('_ScopeManager methods using the stack', attr_users, 4)
   if init is not None:
-    fresh = [n for n in walk_local(init.node) if isinstance(n, ast.Assign)
+    fresh = [n.value for n in walk_local(init.node) if isinstance(n, ast.Assign)
              and any(isinstance(t, ast.Attribute) and t.attr.startswith('_active') for t in n.targets)]
-    ok = bool(fresh) and all(copy_kind(n.value) == 'FRESH' for n in fresh)
+    # equivalent spellings on the instance dict: vars(self).setdefault('_active_scopes', <fresh>) / self.__dict__.setdefault(...)
+    fresh += [c.args[1] for c in walk_local(init.node) if isinstance(c, ast.Call) and isinstance(c.func, ast.Attribute) and c.func.attr == 'setdefault'
+              and u(c.func.value) in ('vars(self)', 'self.__dict__') and len(c.args) == 2 and isinstance(c.args[0], ast.Constant)
+              and str(c.args[0].value).startswith('_active')]
+    ok = bool(fresh) and all(copy_kind(v) == 'FRESH' for v in fresh)
     ctx.check(ok, 'C09.thread', ccon, 'the per-thread stack is created as a fresh list',
               'the per-thread stack is initialised from a shared object', init.loc(), instance='fresh-init')
   # module-level: the manager instance, and no function stores scope state in a global
